@@ -18,8 +18,8 @@ P(prop, name, applies, holds) ==
 PD(prop, name, applies, holds, detail) ==
   [prop |-> prop, name |-> name \o ":" \o detail, app |-> applies, ok |-> (~applies) \/ holds]
 
-Failures(ps, e, l) ==
-  { [prop |-> p.prop, pred |-> p.name, trace |-> e.t, line |-> l,
+Failures(ps, e, ln) ==
+  { [prop |-> p.prop, pred |-> p.name, trace |-> e.t, line |-> ln,
      sig |-> p.name \o ":" \o e.sig] : p \in {q \in ps : ~q.ok} }
 
 \* Keep at most KeepPerSig records per signature (a known finding may fire thousands of times;
@@ -39,8 +39,8 @@ Count(cnt, ps) ==
 EmptyCount == [n \in {} |-> 0]
 
 \* printed once, at the end of the trace
-Report(l, viol, cnt) ==
-  (l = Len(Trace) + 1) =>
+Report(ln, viol, cnt) ==
+  (ln = Len(Trace) + 1) =>
      /\ PrintT(<<"VERIF_COUNT", ToJson(cnt)>>)
-     /\ PrintT(<<"VERIF_VIOL", ToJson(viol), "LINES", l - 1>>)
+     /\ PrintT(<<"VERIF_VIOL", ToJson(viol), "LINES", ln - 1>>)
 =============================================================================
